@@ -195,6 +195,13 @@ class Histogram1D(ObjectWithBinning, HistogramBase):
             a_copy._stats = Statistics()
         return a_copy
 
+    @HistogramBase.frequencies.setter  # type: ignore
+    def frequencies(self, values: ArrayLike) -> None:
+        HistogramBase.frequencies.fset(self, values)  # type: ignore
+        if hasattr(self, "_stats"):
+            # Contents assigned directly are not those of the values recorded so far
+            self._stats = INVALID_STATISTICS
+
     @property
     def statistics(self) -> Statistics:
         return self._stats
